@@ -57,6 +57,20 @@ def boolCmp3 (a b : Bool) : Ord3 :=
   | true, false => .greater
   | _, _ => .equivalent
 
+/-- comparison category types -/
+inductive Cat
+  | strongOrdering | partialOrdering
+  deriving DecidableEq, Repr, Inhabited
+
+/-- `std::compare_three_way_result_t<T>`: the type of `a <=> b` on two `T`s -/
+def Cat.of (p : Prim) : Cat := if p.isFloat then .partialOrdering else .strongOrdering
+
+/-- implicit conversion between category types in a `return` statement:
+    `strong_ordering` converts to `partial_ordering`, not the other way round -/
+def Cat.convertsTo : Cat → Cat → Bool
+  | .partialOrdering, .strongOrdering => false
+  | _, _ => true
+
 /-! ### `required_base` -/
 namespace Required
 
@@ -108,8 +122,13 @@ def fromValue (_T : Ty) (v : Nat) : Nat := v
 /-- `value()` = `**this` = `val` -/
 def value (_T : Ty) (v : Nat) : Nat := v
 
-/-- `return (val != Derived::null_value());` -/
-def hasValue (T : Ty) (v : Nat) : Bool := uRel T.p .ne v T.null
+/-- ```
+    return (val != Derived::null_value())
+           && !((val != val)
+                && (Derived::null_value() != Derived::null_value()));
+    ``` -/
+def hasValue (T : Ty) (v : Nat) : Bool :=
+  uRel T.p .ne v T.null && !(uRel T.p .ne v v && uRel T.p .ne T.null T.null)
 
 /-- `explicit operator bool()`: `return has_value();` -/
 def toBool (T : Ty) (v : Nat) : Bool := hasValue T v
@@ -122,34 +141,45 @@ def valueOr (T : Ty) (v d : Nat) : Nat :=
 def inRange (T : Ty) (v : Nat) : Bool :=
   uRel T.p .le T.min v && uRel T.p .le v T.max
 
-/-- `operator==` (present in both configurations): `return *lhs == *rhs;` -/
-def eq (T : Ty) (a b : Nat) : Bool := uRel T.p .eq a b
+/-- `operator==` (present in both configurations):
+    ```
+    return (lhs.has_value() && rhs.has_value())
+               ? (*lhs == *rhs)
+               : (lhs.has_value() == rhs.has_value());
+    ``` -/
+def eq (T : Ty) (a b : Nat) : Bool :=
+  if hasValue T a && hasValue T b then uRel T.p .eq a b
+  else hasValue T a == hasValue T b
+
+/-- declared return type of `operator<=>`:
+    `std::compare_three_way_result_t<value_type>` -/
+def spaceshipRet (T : Ty) : Cat := Cat.of T.p
 
 /-- ```
-    constexpr friend std::strong_ordering
+    constexpr friend std::compare_three_way_result_t<value_type>
         operator<=>(const optional_base& lhs, const optional_base& rhs) noexcept
     {
         if(lhs && rhs) { return *lhs <=> *rhs; }
         return lhs.has_value() <=> rhs.has_value();
     }
     ```
-    For `float`/`double` the first `return` converts `std::partial_ordering` to
-    `std::strong_ordering`, which does not exist: the instantiation of the body
-    is ill-formed (`none`), whatever the operands.  (The class itself and `==`
-    still compile, because a friend defined in a class template is only
-    instantiated when used.) -/
+    The first `return` converts the category of `value_type` and the second a
+    `std::strong_ordering` (`bool <=> bool`) to the declared return type; if
+    either conversion does not exist the instantiation of the body is
+    ill-formed (`none`), whatever the operands. -/
 def spaceship (T : Ty) (a b : Nat) : Option Ord3 :=
-  if T.p.isFloat then none
-  else some (if toBool T a && toBool T b then uCmp3 T.p a b
-             else boolCmp3 (hasValue T a) (hasValue T b))
+  if Cat.convertsTo (Cat.of T.p) (spaceshipRet T) && Cat.convertsTo .strongOrdering (spaceshipRet T) then
+    some (if toBool T a && toBool T b then uCmp3 T.p a b
+          else boolCmp3 (hasValue T a) (hasValue T b))
+  else none
 
 def rel (impl : Impl) (T : Ty) (r : Rel) (a b : Nat) : Res :=
   match impl with
   | .ops =>
     match r with
     | .eq => .val (eq T a b)
-    -- `return *lhs != *rhs;`
-    | .ne => .val (uRel T.p .ne a b)
+    -- `return !(lhs == rhs);`
+    | .ne => .val (!eq T a b)
     -- `return rhs && (!lhs || (*lhs < *rhs));`
     | .lt => .val (toBool T b && (!toBool T a || uRel T.p .lt a b))
     -- `return !lhs || (rhs && (*lhs <= *rhs));`
